@@ -125,3 +125,11 @@ add("C03",
     "Trusted: CrossHair/z3 (index enumeration); xmlsec1 by contract (verifies iff handed the signer's certificate); object-level metadata; fake temp files.",
     "DESIGN.md 3/C03")
 NOT_APPLICABLE.pop("C03", None)
+
+add("C01",
+    "CrossHair-driven exploration of Saml2Client.parse_authn_request_response over a parameterised family of signature-wrapping documents derived from genuinely signed responses, with xmlsec1 replaced by a digest-faithful in-process model; identity oracle",
+    "For assertion-, response- and both-signed originals and every generated rewrite (in-place edits; Signature moved to another element; evil Assertion / evil wrapping Response with fresh or duplicate ID, carrying no / copied / forged / both Signatures, the original dropped or relocated to 6 places, with or without its own Signature) under 4 signature-requiring option settings: "
+    "whenever the SP accepts, the subject and attribute value it reads are the signed ones; the pristine document is accepted exactly when what is required is signed.",
+    "Decisive assumption: the xmlsec1 contract in harness/xmlsecmodel.py (ID registration per element name, first-wins duplicates, first Signature in document order, same-document dereference, enveloped transform). Documents are concrete per path (indices symbolic). Trusted: CrossHair/z3, clock model.",
+    "DESIGN.md 3/C01")
+NOT_APPLICABLE.pop("C01", None)
